@@ -73,6 +73,17 @@ void harness(void) {
 	res = asyncClient_setOption(c, KSI_ASYNC_OPT_RCV_TIMEOUT, (void *)(size_t)10); ASSUME(res == KSI_OK);
 	c13_difftime_threshold = 10; c13_difftime_threshold_set = 1;
 	KSI_AsyncHandle *h = mk_handle(ctx, REQ_KIND);
+#ifdef READD
+	/* the handle is RE-ADDED (documented for handles that came back in state ERROR): it still carries what the earlier
+	 * submission left in it - the serialised request, an error and its message, a request id */
+	{
+		unsigned char *old_raw = (unsigned char *)KSI_malloc(4); ASSUME(old_raw != NULL);
+		for (int i = 0; i < 4; i++) old_raw[i] = ND(u8, old_raw);
+		h->raw = old_raw; h->len = 4; h->sentCount = 4; h->id = 1;
+		h->state = KSI_ASYNC_STATE_ERROR; h->err = KSI_ASYNC_CONNECTION_CLOSED; h->errExt = ND(long, old_err_ext);
+		if (REQ_KIND & 1) { res = KSI_Integer_new(ctx, 1, &h->aggrReq->requestId); ASSUME(res == KSI_OK); }
+	}
+#endif
 
 	/* ---- the faulted call ---- */
 	C19_ARM();
